@@ -530,7 +530,8 @@ def classify_reader(P, f):
         elif n in ("helpers::scalar_from_le_bytes", "SecretKey<C>::from_le_bytes") or (n in P.fns and n.endswith("::from_le_bytes")):
             kinds.add(("ScalarLE",))
         elif n == "TryInto::try_into" and len(g) == 2 and g[1].startswith("[u8;"):
-            kinds.add(("Raw",))
+            # `slice.try_into()` into `[u8; N]` is `<[u8; N]>::try_from(slice)` written from the other side
+            kinds.add(("RawArray",))
         elif n == "TryFrom::try_from" and g and g[0].startswith("[u8;"):
             # `<[u8; N]>::try_from(slice)`: the whole input is the fixed-size payload (unless it is decoded further)
             kinds.add(("RawArray",))
@@ -597,11 +598,19 @@ def check_reader_totality(ctx, P, rule="E9.reader-total"):
 
 def _reads_content(t, pname):
     """Does the term use the input bytes themselves (not just their length)?"""
+    from . import guardrules as R_
+
     def rec(x):
         if x.op == "call" and B.cname(x) in ("slice::<impl [T]>::len", "slice::<impl [T]>::is_empty", "Vec::<T, A>::len", "Vec::<T, A>::is_empty") and len(x.a[1]) == 1:
             y = B.peel(x.a[1][0])
             if y.op == "param":
                 return False
+            # the length of a sub-slice at a constant offset (`&value[1..]`, the rest of a slice pattern) is still only a length
+            try:
+                if R_._len_offset(x.a[1][0], pname) is not None:
+                    return False
+            except Exception:
+                pass
         if x.op == "len":
             y = B.peel(x.a[0])
             if y.op == "param":
